@@ -46,6 +46,9 @@ def shapes(tier, seed):
         out.append(('accept', carrier, 0, 0, 'hdr', 2, False, True, False))
         out.append(('accept', carrier, 0, 0, None, 2, False, False, True))       # form folding on, non-form body
         out.append(('accept', carrier, 0, 0, 'form', 3, False, False, True))     # folded form body
+        # a client-declared payload hash (x-amz-content-sha256, S3 style) next to a symbolic body: the hash that counts is that of the body received
+        out.append(('accept', carrier, 0, 0, 'sha', 2, True, False, False))
+        out.append(('accept', carrier, 0, 0, 'sha-unsigned', 1, False, False, False))
         if not q:
             out.append(('accept', carrier, 3, 0, None, 0, False, False, False))
             out.append(('accept', carrier, 1, 2, 'hdr', 1, True, True, False))
@@ -86,6 +89,15 @@ def build_accept(m, ctx, shape):
             hv.append(Int('u8', b))
         headers.append(('x-e', hv))
         signed.append('x-e')
+    if extra in ('sha', 'sha-unsigned'):
+        dv = []
+        for i in range(2):
+            b = ctx.fresh_bv('dh%d' % i, 8)
+            ctx.assume(z3.And(z3.UGT(b, 0x20), z3.ULT(b, 0x7F)))
+            dv.append(Int('u8', b))
+        headers.append(('x-amz-content-sha256', dv))
+        if extra == 'sha':
+            signed.append('x-amz-content-sha256')
     body = sym_bytes(ctx, 'body', blen)
     if extra == 'form':
         headers.append(('content-type', conc_bytes('application/x-www-form-urlencoded')))
@@ -252,7 +264,7 @@ def run_shape(prog, shape, tier, seed, res):
 
         def fail(what, prop=None):
             neg = None if prop is None else z3.Not(prop)
-            preds = [(k['id'], c02.KNOWN_PREDICATES[k['predicate']]({'wire_path': B['path']})) for k in known if k.get('predicate') in c02.KNOWN_PREDICATES]
+            preds = []      # no known finding applies to C01 (the path normal form is the crate's own; see known_findings.json)
             qn = [z3.Not(zb(p)) for _, p in preds]
             sat, model = ctx.satisfiable(z3.And(*([neg] if neg is not None else []) + qn) if (neg is not None or qn) else None)
             kid = None
@@ -263,7 +275,7 @@ def run_shape(prog, shape, tier, seed, res):
                 return
             j = B['rq'].to_json(model)
             res.findings.append(Finding(what, {'request': j, 'key_hex': model_bytes(model, key).hex(), 's3': B['s3'], 'fold': B['fold'],
-                                               'carrier': B['carrier']}, None, kid, repr(shape)))
+                                               'carrier': B['carrier'], 'signed': list(B['signed'])}, None, kid, repr(shape)))
         hm = [c for c in calls if c.kind == 'hmac']
         sh = [c for c in calls if c.kind == 'sha256']
         if len(hm) != 1 or len(prov.calls) != 1:
@@ -396,6 +408,8 @@ def replay_finding(rp, f):
     hdrs = [h for h in j['headers'] if h[0] != 'authorization']
     carrier = inp['carrier']
     signed = sorted({h[0] for h in hdrs if h[0] in ('host', 'x-e', 'x-amz-date')})
+    if inp.get('signed'):
+        signed = sorted(inp['signed'])
     if carrier == 'query':
         i = uri.find('&X-Amz-Signature=')
         base = uri[:i] if i >= 0 else uri
@@ -403,7 +417,20 @@ def replay_finding(rp, f):
     else:
         base = uri
     try:
-        j2, creq, sts = c02.sign_concrete({'carrier': carrier, 'request': dict(j, uri=base, headers=hdrs), 'signed': signed, 's3': inp['s3']})
+        rq_ref = dict(j, uri=base, headers=hdrs)
+        folded = inp['fold'] and any(h[0] == 'content-type' and bytes.fromhex(h[1]).startswith(b'application/x-www-form-urlencoded') for h in hdrs)
+        if folded:
+            # reference for a folded form: the body joins the query and the payload hash is that of the empty string
+            sep = '&' if '?' in base else '?'
+            rq_sign = dict(rq_ref, uri=base + sep + bytes.fromhex(j['body_hex']).decode('latin-1'), body_hex='')
+            j2s, creq, sts = sign_with_method({'carrier': carrier, 'request': rq_sign, 'signed': signed, 's3': inp['s3']})
+            j2 = dict(rq_ref)
+            if carrier == 'header':
+                j2['headers'] = hdrs + [j2s['headers'][-1]]
+            else:
+                j2['uri'] = base + '&X-Amz-Signature=' + j2s['uri'].rsplit('X-Amz-Signature=', 1)[1]
+        else:
+            j2, creq, sts = sign_with_method({'carrier': carrier, 'request': rq_ref, 'signed': signed, 's3': inp['s3']})
     except Exception as e:
         return False, {'replay_error': repr(e)}
     nat2 = native_validate(rp, j2, 'us-east-1', 'service', T0, provider={'result': {'signing_key_hex': '00' * 32}},
